@@ -7,6 +7,7 @@ use crate::json::J;
 use crate::keys::*;
 use crate::layouts::*;
 use crate::model::seq_for;
+use crate::mon_through::{through_decoder, Acc};
 use crate::refs::*;
 use crate::report::*;
 use crate::scan::{ref_for, Dec};
@@ -64,6 +65,33 @@ fn cube_common(prop: &str, rep: &mut Report) -> Cube {
     let _ = prop;
     cube
 }
+
+/// observed (bare form): the ASCII letter a key types unmodified, if any
+fn ascii_letter(cube: &Cube, li: usize, ki: usize) -> Option<char> {
+    enc_char(cube.get(li, 0, ki, 1, B_NUMLOCK)).filter(|c| c.is_ascii_lowercase())
+}
+/// observed (bare form): lower/upper pair ⇒ letter key in the sense of C10
+fn is_letter_key(cube: &Cube, li: usize, ki: usize) -> bool {
+    let base = enc_char(cube.get(li, 0, ki, 1, B_NUMLOCK));
+    let shifted = enc_char(cube.get(li, 0, ki, 1, B_NUMLOCK | B_LSHIFT));
+    match (base, shifted) {
+        (Some(b), Some(s)) => {
+            let mut up = b.to_uppercase();
+            let u = up.next();
+            b.is_lowercase() && up.next().is_none() && u == Some(s) && s != b
+        }
+        _ => false,
+    }
+}
+const MAIN_BLOCK: [KeyCode; 20] = [
+    KeyCode::Q, KeyCode::A, KeyCode::Z, KeyCode::M, KeyCode::Y, KeyCode::E, KeyCode::Key2, KeyCode::Key3, KeyCode::Key7, KeyCode::Key0, KeyCode::Oem8, KeyCode::OemMinus, KeyCode::OemPlus,
+    KeyCode::Oem1, KeyCode::Oem3, KeyCode::Oem4, KeyCode::Oem6, KeyCode::Oem5, KeyCode::Oem7, KeyCode::OemComma,
+];
+const NUMPAD_AND_EDIT: [KeyCode; 23] = [
+    KeyCode::Numpad0, KeyCode::Numpad1, KeyCode::Numpad2, KeyCode::Numpad3, KeyCode::Numpad4, KeyCode::Numpad5, KeyCode::Numpad6, KeyCode::Numpad7, KeyCode::Numpad8, KeyCode::Numpad9,
+    KeyCode::NumpadPeriod, KeyCode::NumpadDivide, KeyCode::NumpadMultiply, KeyCode::NumpadSubtract, KeyCode::NumpadAdd, KeyCode::NumpadEnter, KeyCode::Return,
+    KeyCode::Escape, KeyCode::Backspace, KeyCode::Tab, KeyCode::Delete, KeyCode::Spacebar, KeyCode::A,
+];
 
 // =================================================================== C03
 
@@ -190,6 +218,36 @@ pub fn run_c03(rep: &mut Report) {
     rep.count("modifier_mode_pairs_selecting_shift", sel_counts[1]);
     rep.count("modifier_mode_pairs_selecting_altgr", sel_counts[2]);
     rep.set_extra("altgr_outputs_not_constrained_by_the_reference", J::strs(altgr_unconstrained.iter().take(40).cloned()));
+
+    // ---- the same reference applied to what is typed through Keyboard::process_keyevent in hostile histories
+    {
+        let refs: Vec<LayoutRef> = (0..10).map(LayoutRef::load).collect();
+        let cube_ref = &cube;
+        let acc = |li: usize, ki: usize, m: u16, mode: usize| -> Acc {
+            let key = cube_ref.keys[ki];
+            for level in [Level::Base, Level::Shift] {
+                if selects(level, m, mode) {
+                    let a = refs[li].accepted(level, key);
+                    return if a.is_empty() { Acc::Any } else { Acc::OneOf(a.iter().map(|c| *c as u32).collect()) };
+                }
+            }
+            if selects(Level::AltGr, m, mode) {
+                let a = refs[li].accepted(Level::AltGr, key);
+                if a.is_empty() {
+                    return Acc::Any;
+                }
+                // the AltGr character, or (for a layout that does not implement it at all) the key's base output
+                let mut v: Vec<u32> = a.iter().map(|c| *c as u32).collect();
+                let has = (0..512u16).any(|x| selects(Level::AltGr, x, 1) && cube_ref.get(li, 0, ki, 1, x) != cube_ref.get(li, 0, ki, 1, x & !(B_RALT | B_LALT)));
+                if !has {
+                    v.push(cube_ref.get(li, 0, ki, mode, m & !(B_RALT | B_LALT)));
+                }
+                return Acc::OneOf(v);
+            }
+            Acc::Any
+        };
+        through_decoder("C03", rep, &cube, &MAIN_BLOCK, &acc);
+    }
 
     // ---- end to end: type every constrained base/shift/AltGr cell through Keyboard from scancodes of both sets
     e2e_c03::<ScancodeSet2>(rep);
@@ -381,6 +439,26 @@ pub fn run_c09(rep: &mut Report) {
             }
         }
     }
+    {
+        let c = &cube;
+        let acc = |li: usize, ki: usize, m: u16, mode: usize| -> Acc {
+            let f = facts(m);
+            let alt = m & (B_LALT | B_RALT) != 0;
+            let letter = ascii_letter(c, li, ki);
+            if mode == 0 {
+                match letter {
+                    Some(x) if f.ctrl && !alt => Acc::OneOf(vec![(x as u32) - ('a' as u32) + 1]),
+                    Some(_) if f.ctrl => Acc::Any,
+                    _ => Acc::OneOf(vec![c.get(li, 0, ki, 1, m)]),
+                }
+            } else if f.ctrl && !(m & B_LALT != 0 && m & B_RALT == 0) {
+                Acc::OneOf(vec![c.get(li, 0, ki, 1, m & !(B_LCTRL | B_RCTRL))])
+            } else {
+                Acc::Any
+            }
+        };
+        through_decoder("C09", rep, &cube, &MAIN_BLOCK, &acc);
+    }
     rep.count("letter_keys_found_across_layouts", letter_keys);
     rep.require("letter keys", letter_keys, 250);
     rep.distinct_nontrivial = distinct.len() as u64;
@@ -487,6 +565,27 @@ pub fn run_c10(rep: &mut Report) {
             }
         }
     }
+    {
+        let c = &cube;
+        let acc = |li: usize, ki: usize, m: u16, mode: usize| -> Acc {
+            let shift = m & (B_LSHIFT | B_RSHIFT) != 0;
+            let caps = m & B_CAPSLOCK != 0;
+            if is_letter_key(c, li, ki) {
+                // CapsLock ≡ inverted Shift, read in both directions
+                let twin = if caps {
+                    if shift { m & !(B_CAPSLOCK | B_LSHIFT | B_RSHIFT) } else { (m & !B_CAPSLOCK) | B_LSHIFT }
+                } else if shift {
+                    (m & !(B_LSHIFT | B_RSHIFT)) | B_CAPSLOCK
+                } else {
+                    m | B_CAPSLOCK | B_LSHIFT
+                };
+                Acc::OneOf(vec![c.get(li, 0, ki, mode, twin)])
+            } else {
+                Acc::OneOf(vec![c.get(li, 0, ki, mode, m ^ B_CAPSLOCK)])
+            }
+        };
+        through_decoder("C10", rep, &cube, &MAIN_BLOCK, &acc);
+    }
     rep.count("letter_keys_found_across_layouts", letter_keys);
     rep.set_extra("national_letter_keys", J::strs(national.iter().cloned()));
     rep.require("letter keys", letter_keys, 250);
@@ -563,6 +662,22 @@ pub fn run_c11(rep: &mut Report) {
                 }
             }
         }
+    }
+    // ---- what is typed through the decoder must be what the five facts determine
+    {
+        let c = &cube;
+        let acc = |li: usize, ki: usize, m: u16, mode: usize| -> Acc {
+            let f = facts(m);
+            let numpad = is_numpad_numlock_key(c.keys[ki]);
+            // canonical representative of the class of m
+            let rep_m = (if f.shift { B_LSHIFT } else { 0 })
+                | (if f.ctrl { B_LCTRL } else { 0 })
+                | (if f.altgr { B_RALT } else { 0 })
+                | (if f.caps { B_CAPSLOCK } else { 0 })
+                | (if numpad && f.numlock { B_NUMLOCK } else { 0 });
+            Acc::OneOf(vec![c.get(li, 0, ki, mode, rep_m)])
+        };
+        through_decoder("C11", rep, &cube, &MAIN_BLOCK, &acc);
     }
     // ---- the five public predicates on all 512 values
     let mut pred_checks = 0u64;
@@ -736,6 +851,37 @@ pub fn run_c15(rep: &mut Report) {
             }
         }
     }
+    {
+        let c = &cube;
+        let acc = |li: usize, ki: usize, m: u16, _mode: usize| -> Acc {
+            let key = c.keys[ki];
+            let nl = m & B_NUMLOCK != 0;
+            if let Some((_, digit, alias)) = NUMPAD_DIGITS.iter().find(|(k, _, _)| *k == key) {
+                return if nl {
+                    Acc::OneOf(vec![*digit as u32])
+                } else {
+                    match alias {
+                        Some(a) => Acc::OneOf(vec![0x8000_0000 | kidx(*a) as u32]),
+                        None => Acc::Any,
+                    }
+                };
+            }
+            if let Some((_, ch)) = NUMPAD_OPS.iter().find(|(k, _)| *k == key) {
+                return Acc::OneOf(vec![*ch as u32]);
+            }
+            if key == KeyCode::NumpadEnter {
+                return Acc::OneOf(vec![0x0A]);
+            }
+            if key == KeyCode::NumpadPeriod {
+                return if nl { Acc::OneOf(decimal_seps(LAYOUT_NAMES[li]).iter().map(|x| *x as u32).collect()) } else { Acc::OneOf(vec![0x7F]) };
+            }
+            if let Some((_, ch)) = EDIT_KEYS.iter().find(|(k, _)| *k == key) {
+                return Acc::OneOf(vec![*ch as u32]);
+            }
+            Acc::Any
+        };
+        through_decoder("C15", rep, &cube, &NUMPAD_AND_EDIT, &acc);
+    }
     rep.distinct_nontrivial = distinct.len() as u64;
     rep.exhaustive = Some(true);
     rep.rule = "tables of DESIGN.md A.4 (digit ↔ navigation alias, operators, decimal separator per layout, six editing keys) applied to the recorded cube in all 512 modifier sets × 2 modes × 30 layout objects; \
@@ -813,6 +959,20 @@ pub fn run_c16(rep: &mut Report) {
                 }
             }
         }
+    }
+    {
+        let c = &cube;
+        let acc = |_li: usize, ki: usize, _m: u16, _mode: usize| -> Acc {
+            let key = c.keys[ki];
+            if CHARLESS.contains(&key) {
+                Acc::OneOf(vec![0x8000_0000 | kidx(key) as u32])
+            } else {
+                Acc::RawSelfOrAlias
+            }
+        };
+        let mut focus: Vec<KeyCode> = CHARLESS.iter().copied().filter(|k| !MOD_KEYS.contains(k)).collect();
+        focus.extend(NUMPAD_DIGITS.iter().map(|(k, _, _)| *k));
+        through_decoder("C16", rep, &cube, &focus, &acc);
     }
     rep.count("raw_key_outputs_examined", raw_outputs);
     rep.count("charless_keys_required_raw", CHARLESS.len() as u64);
